@@ -832,6 +832,30 @@ def MAINT_SCRIPT(K=0, horizon=8, ops=None, probes=0):
     return s
 
 
+def INSTANT(K=0, horizon=6, ops=None):
+    '''A machine whose failure callback restores it at once (zero-time auto-recover): the part in process is lost, the
+    machine is operational and empty again within the same event.'''
+    devs = [src('S', 1), proc('M1', ['S'], 2, instant_repair=True), sink('K', ['M1'])]
+    if ops is None:
+        ops = [('fail', 'M1', 0), ('fail', 'M1', 1), ('shutdown', 'M1'), ('restore', 'M1')]
+    s = spec(f'INSTANT[K{K}]', devs, horizon, ops, K)
+    s['probes'] = 1
+    return s
+
+
+def MAINT3_SCRIPT(K=0, horizon=4, ops=None):
+    '''Three machines, maintainer capacity 2: an order that fills the maintainer is in progress (scripted) while two
+    smaller orders for two other machines queue behind it; both are released by the SAME scan when it finishes.'''
+    wo = {'x': [2, 1.5, 1], 'y': [1, 1, 0]}
+    devs = [src('S', 1), proc('M1', ['S'], 1, wo=wo), proc('M2', ['S'], 1, wo=wo), proc('M3', ['S'], 1, wo=wo),
+            sink('K', ['M1', 'M2', 'M3']), maint(2)]
+    if ops is None:
+        ops = [('fail', 'M2', 0), ('restore', 'M2')]
+    s = spec(f'MAINT3SCRIPT[K{K}]', devs, horizon, ops, K)
+    s['script'] = [[0.5, 2, ['wo', 'M1', 'x']], [0.75, 2, ['wo', 'M2', 'y']], [1.25, 2, ['wo', 'M3', 'y']]]
+    return s
+
+
 def MAINT2_SCRIPT(K=0, horizon=8, ops=None):
     '''Two machines: M2 is under scripted maintenance with a part in process while operations hit M1.'''
     devs = [src('S', 1), proc('M1', ['S'], 1), buf('B', ['M1'], 2), proc('M2', ['B'], 2), sink('K', ['M2'])]
